@@ -147,6 +147,19 @@ def run_check(prop, tier, seed=0):
             o["detail"] = "[--features %s] %s" % (cfg, o["detail"])
             cx.obl.append(o)
 
+    # thorough tier: positive controls - the recorded mutants of this property must be reported
+    poscon = None
+    if tier == "thorough" and not os.environ.get("AXV_REPO") and not os.environ.get("AXV_NO_SELFTEST"):
+        import subprocess
+        try:
+            r = subprocess.run([sys.executable, os.path.join(VERIF, "selftest", "run.py"), "prop", prop],
+                               stdout=subprocess.PIPE, stderr=subprocess.STDOUT, text=True, timeout=3000)
+            poscon = json.loads(r.stdout.strip().splitlines()[-1])
+        except Exception as e:
+            poscon = {"error": str(e)[:300]}
+        if poscon.get("missed"):
+            print("WARNING: positive controls not caught by %s: %s" % (prop, poscon["missed"]))
+
     known = [k for k in load_known() if k.get("property") == prop]
     known_keys = {k["key"]: k for k in known if k.get("status") == "known"}
     viol, kf = [], []
@@ -209,6 +222,7 @@ def run_check(prop, tier, seed=0):
             "known_findings_printed": [o["key"] for o, _ in kf],
             "advisories": [o for o in cx.obl if o["status"] == "advisory"],
             "notes": cx.notes,
+            "positive_controls": poscon,
             "exhaustive": True,
         },
         "assumptions": getattr(mod, "ASSUMPTIONS", []) + [
